@@ -164,6 +164,7 @@ def run(prop: str, tier: str) -> int:
     elif prop == "C09":
         sts = labelled(rep, max_nodes=3 if quick else 4, d=3, label="labelled")
         run_states(rep, prop, sts, "words", {"D": 3}, "c09")
+        run_states(rep, prop, sts if not quick else sts[::2], "int", {"D": 3}, "c09-int-keys")   # int data_ids: ambiguous int keys
         if not quick:
             run_states(rep, prop, sts, "keyed", {"D": 3}, "c09")
             sts2 = labelled(rep, max_nodes=3, d=2, xids=(0, 11), label="labelled+ids")
@@ -205,6 +206,12 @@ def run(prop: str, tier: str) -> int:
     elif prop == "C16":
         sts = shapes(rep, max_nodes=5 if quick else 6, label="shapes")
         run_states(rep, prop, sts, "str", {}, "c16")
+        # clones (a clone may be a last sibling where its twin is not) and typed trees (TypedNode overloads
+        # is_last_sibling() as "last of its kind")
+        sts2 = labelled(rep, max_nodes=4, d=2 if quick else 3, label="labelled-clones")
+        run_states(rep, prop, sts2 if not quick else sts2[::2], "str", {"styles": ["round43", "lines32c", "ascii11", "custom6"]}, "c16-clones")
+        sts3 = shapes(rep, max_nodes=4 if quick else 5, k=2, label="typed-shapes")
+        run_states(rep, prop, sts3 if not quick else sts3[::2], "str+typed", {"styles": ["round43", "lines43c", "custom4"]}, "c16-typed")
         rep.assumptions = ["styles whose segments are not pairwise distinct (space1..space4) cannot be decoded and are "
                            "checked for line count/order only"]
     else:
